@@ -36,10 +36,10 @@ CLAIMED.update({
 })
 CLAIMED.update({
  'C11': dict(section='8/C11', technique='Coq proof (dispatch precondition, command effects, callback effects, and for ALL schedules: a cancelled proposal stays undispatchable until rescheduled) + differential correspondence of gateway+governance in the Rust VM with harness-scheduled promises + trace monitors',
-   text='Theorems c11_dispatch_requires, c11_commands (eta >= now + delay, no reschedule), c11_callback, c11_cancel_kills, c11_cancelled_stays_cancelled (induction over arbitrary operation lists = all interleavings of dispatch, target call, callback and other transactions), c11_dead_no_dispatch; counting over whole histories (Proofs/GovCount.v): c11_eta_potential and c11_pending_potential (all nine operation kinds) give c11_one_success_per_scheduling (successful dispatches of a proposal <= accepted schedulings of it, for every history and schedule) and c11_accepts_bounded; c11_unrepaired_refuted exhibits the history on which the source before the fix: commit violated the property. The real contracts are compared step by step with the model and a monitor re-checks the property on the implementation trace.',
+   text='Theorems c11_dispatch_requires, c11_commands (eta >= now + delay, no reschedule), c11_callback, c11_cancel_kills, c11_cancelled_stays_cancelled (induction over arbitrary operation lists = all interleavings of dispatch, target call, callback and other transactions), c11_dead_no_dispatch; counting over whole histories (Proofs/GovCount.v): c11_eta_potential and c11_pending_potential (all nine operation kinds) give c11_one_success_per_scheduling (successful dispatches of a proposal <= accepted schedulings of it, for every history and schedule) and c11_accepts_bounded; c11_unrepaired_refuted exhibits the history on which the source before the fix: commit violated the property. The real contracts are compared step by step with the model and a monitor re-checks the property on the implementation trace. c11_command_traces_to_batch: the authentication of a scheduling command, end to end (Proofs/GovGwOrigin.v).',
    note='Trusted: Coq kernel; hand-written model of governance+gateway tied by the correspondence; external target abstracted to an outcome; gas not modelled. Genuine defect F-C11-1 repaired by a fix: commit (known_findings.json).'),
  'C12': dict(section='8/C12', technique='Coq proof (authenticated-command precondition with gateway consumption, no replay, table frame for every other operation, operator dispatch/approval algebra for all schedules, operator and funds gates) + differential correspondence + trace monitors',
-   text='Theorems c12_execute_requires, c12_no_replay, c12_tables_frame, c12_operator_dispatch, c12_operator_callback, c12_cancelled_approval_stays_cancelled, c12_deadop_no_dispatch, c12_operator_change, c12_withdraw_self_only. Counting (Proofs/GovCountOp.v): c12_approval_potential, c12_one_success_per_approval (successful operator dispatches <= accepted approvals, for every history).',
+   text='Theorems c12_execute_requires, c12_no_replay, c12_tables_frame, c12_operator_dispatch, c12_operator_callback, c12_cancelled_approval_stays_cancelled, c12_deadop_no_dispatch, c12_operator_change, c12_withdraw_self_only. Counting (Proofs/GovCountOp.v): c12_approval_potential, c12_one_success_per_approval (successful operator dispatches <= accepted approvals, for every history). End to end (Proofs/GovGwOrigin.v): c12_gateway_projection, c12_command_traces_to_batch (an accepted command traces back to an approveMessages transaction of the same history naming exactly this command), c12_end_to_end_nonvacuous.',
    note='Trusted: as C11. Genuine defect F-C12-1 repaired by the same fix: commit.'),
  'C16': dict(section='8/C16', technique='Coq proof (credit arithmetic per token incl. repeated tokens, callback credits under any schedule, withdrawal exactness, frame) + differential correspondence + trace monitor',
    text='Theorems c16_credit, c16_callback_credits, c16_withdraw, c16_frame; histories (Proofs/GovCredits.v): c16_credits_step (all 9 operation kinds) and c16_credits_history (for EVERY history and schedule: outstanding credit of (caller, token, nonce) = initial + attached to failed dispatches by that caller - withdrawn by that caller), c16_withdrawn_owner_only.',
@@ -50,7 +50,7 @@ ITS_TECH = 'Coq proof over the ITS world model + differential correspondence of 
 CLAIMED.update({
  'C04': dict(section='8/C04', technique=ITS_TECH, note=ITS_NOTE,
    text='Theorems c04_release_requires (live approval for exactly this message addressed to the service, consumed by the step; exactly the payload amount to the payload recipient through the registered manager), c04_trusted_source, c04_give, c04_once (an executed message releases nothing again). World level (Proofs/ItsGw.v): c04_gateway_forward (all 25 operation kinds move every gateway message only forward), c04_executed_forever, c04_released_once_forever.'),
- 'C05': dict(section='8/C05', technique=ITS_TECH, note=ITS_NOTE,
+ 'C05': dict(section='8/C05 End to end (Proofs/ItsGwOrigin.v): c04_gateway_projection, c04_approval_from_history, c04_release_traces_to_batch (a release traces back to an approveMessages transaction of the same history that the gateway accepted, naming exactly this message), c04_end_to_end_nonvacuous.', technique=ITS_TECH, note=ITS_NOTE,
    text='Theorems c05_split (payment shapes), c05_effect (take by the manager of the token id, one gateway message with abi.encode(0, token id, sender, destination, amount, data) to the routed destination), c05_take, c05_message (exact contract-call and gas-paid events, gas moved to the gas service, refund address = sender), c05_payload_abi (C06); world level (Proofs/ItsOutbound.v): c05_split_accounts_for_everything and c05_service_balances_unchanged (a successful outbound transfer step leaves every balance of the service unchanged).'),
  'C08': dict(section='8/C08', technique=ITS_TECH, note=ITS_NOTE + ' Known finding F-C08-1 (failure callback rejected by the flow limit) is recorded in known_findings.json and exhibited by c08_refuted_flow_limit.',
    text='Theorems c08_start (approval checked not consumed, lock taken, one promise), c08_lock_excludes, c08_callback (success: message executed, nothing else moves; failure: gateway untouched, tokens taken back through takeToken, lock cleared), c08_no_double; the recorded finding is reported as KNOWN-FINDING, any other stranding or double delivery as a violation. World level (Proofs/ItsLocks.v): the invariant LockInv (every delivery in flight holds its lock; at most one delivery in flight per message) is inductive over all 25 operation kinds: c08_inv_init, c08_inv_step, c08_inv_reachable, c08_in_flight_locked.'),
